@@ -5,7 +5,7 @@ import Std.Data.String.ToInt
 # C04 — what a `default_*` body denotes: `evalLit`
 
 * `valueJson` — the JSON spelling of a GraphQL constant (`Value`): enum values as strings, float tokens as opaque
-  JSON numbers; (`null` and a variable — which the generator panics on — as `null`).
+  JSON numbers; (a variable — which the generator panics on — as `null`).
 * `evalLit e lit ty` — the `Serde.Val` the Rust expression `lit` denotes at the Rust type `ty` in the module `e`,
   `none` = "does not type-check": `Some(..)` / `None` only at `Option<_>`, `vec![..]` at `Vec<_>`, `Box::new(..)` at
   `Box<_>`, `true` at `bool`, `"s".to_string()` at `String`, an integer literal at `i64` (in range), a float literal at
@@ -18,9 +18,11 @@ import Std.Data.String.ToInt
 * an `f64` value is a `Val.float j` carrying the JSON number it is written as (the project's convention): for the
   literal token `tok` that is `floatJson tok` — the integer `n` when `tok` is the decimal of `n` (the generator writes
   the integer default `7` of a `Float` variable as the float literal of `7`), the opaque number `tok` otherwise.
-* `kindOk` — the side condition of the theorems on a default value that JSON cannot express: no `null` / variable
-  inside (the generator panics), string literals not at enum positions, enum literals only at enum positions, float
-  tokens are not integer tokens (the GraphQL grammar guarantees it: a float has a fraction or an exponent).
+* `kindOk` — the side condition of the theorems on a default value that JSON cannot express: no variable inside (the
+  generator panics; its JSON spelling is taken to be `null`), string literals not at enum positions, enum literals only
+  at enum positions, float tokens are not integer tokens (the GraphQL grammar guarantees it: a float has a fraction or
+  an exponent).  `null` is not restricted: `ValidC` accepts it exactly at nullable positions, where the (repaired)
+  generator writes `None`; at a non-null position it is invalid, and the generator panics.
 * `Good e lit r out x` — what the main induction (`C04DefaultsCore.lean`) shows of a literal.
 -/
 namespace GqlVerif
@@ -69,7 +71,7 @@ end
 mutual
   /-- see the header -/
   def kindOk (s : Schema) : TypeId → Value → Bool
-    | _, .null => false
+    | _, .null => true      -- whether `null` is allowed at the position is `ValidC`'s business
     | _, .var _ => false
     | id, .str _ => id.asEnum?.isNone
     | id, .enum _ => id.asEnum?.isSome
